@@ -65,6 +65,7 @@ type FuncSpec struct {
 	UnreachableOK int     // number of return/loop-body covers that may legitimately be unreachable
 	Assumes   []*Clause   // trusted post-conditions: assumed at call sites, not checked against the body
 	AssumePre []*Clause   // modelling assumptions available inside the body only (not checked at call sites)
+	Pure      *Clause     // pure E: the function returns E (a function of parameters and captured variables)
 }
 
 type LetSpec struct {
@@ -376,6 +377,14 @@ func (fs *FuncSpec) addClause(t, file string, ln int) error {
 			return err
 		}
 		fs.Ensures = append(fs.Ensures, c)
+	case "pure":
+		c, err := mk(kind, rest)
+		if err != nil {
+			return err
+		}
+		fs.Pure = c
+		e2, _ := parseSpecExpr("result == (" + rest + ")")
+		fs.Ensures = append(fs.Ensures, &Clause{Kind: "ensures", Tags: tags, Text: "result == (" + rest + ")", E: e2, File: file, Line: ln})
 	case "assume_pre":
 		c, err := mk(kind, rest)
 		if err != nil {
